@@ -13,7 +13,7 @@ RULE = (
     "square faces of N in 2..5 cells, an independent D4 orientation per face drawn until every junction is expressible "
     "in the face_connections format (table derived from the geometry), face dimension at a random place among 0-2 extra "
     "dims; one of diff/interp/min/max of a cell-centred field along X or Y to left, right or outer (both edges of every face), optionally on a grid with an unlinked third axis Z (operation along Z; or along X/Y of a surface field after an operation along Z), fill/extend/periodic rule on "
-    "unlinked edges given at grid or call level; unique-id or exact-safe data. Oracle: every target point takes the two "
+    "unlinked edges given at grid or call level; unique-id or exact-safe data, a fifth of the cases dask-backed (one chunk, or chunked over face / extra dimensions). Oracle: every target point takes the two "
     "adjacent local cells; a cell outside the face is the geometric neighbour in the undivided global field when the edge "
     "is linked, else the boundary rule on the face's own array; all cells of all faces compared bit-exactly. Class = "
     "(arrangement, periodic, op, axis, to, link kinds crossed, open-edge rule, N>2); non-trivial iff some value crossed a link."
@@ -109,6 +109,14 @@ def run_case(ctx, desc):
     Fs = [T.cut(Gk) for Gk in Gs]
     full = np.stack(Fs).reshape(tuple(lead) + Fs[0].shape)
     da = xr.DataArray(full, dims=ex + ["face", "y", "x"]).transpose(*desc["order"])
+    lazy = desc["dseed"] % 5 == 1
+    if lazy:
+        # the same field held as a dask array (one chunk, or chunked over the face and extra dimensions): the values the
+        # operators return do not depend on where the data lives
+        import random
+
+        lr = random.Random(desc["dseed"])
+        da = da.chunk({d: (gen.random_composition(lr, da.sizes[d]) if (d not in ("x", "y") and lr.random() < 0.6) else (da.sizes[d],)) for d in da.dims})
     crossed = set()
     fop = stencil.OPS[op]
     exps = []
@@ -143,7 +151,7 @@ def run_case(ctx, desc):
                     exp[f, j, i] = fop(l, r)
         exps.append(exp)
     links = sorted(k for k in crossed if k[0] != "open")
-    ckey = ((Kx, Ky), desc["periodic"], op, a, to, links, sorted(k for k in crossed if k[0] == "open"), N > 2)
+    ckey = ((Kx, Ky), desc["periodic"], op, a, to, links, sorted(k for k in crossed if k[0] == "open"), N > 2) + (("lazy",) if lazy else ())
     ctx.judged(ckey, bool(links))
     for k in links:
         ctx.note("link_kinds_seen", k)
